@@ -18,7 +18,13 @@ def run_actions(model, t, acts):
         if k == 'set':
             model.__dict__['_V%d' % a[1]][t] = unhex(a[2])
         elif k == 'warnset':
-            warnings.warn('scripted numerical warning', RuntimeWarning)
+            before = float(model.__dict__['_V%d' % a[1]][t])
+            try:
+                warnings.warn('scripted numerical warning', RuntimeWarning)
+            except RuntimeWarning:
+                # the filter turned the warning into an exception: remember what the cell held (oracle: it must stay)
+                model.__dict__['_blocked'].append([a[1], int(t), before.hex() if before == before and abs(before) != float('inf') else repr(before)])
+                raise
             model.__dict__['_V%d' % a[1]][t] = unhex(a[2])
         elif k == 'raise':
             raise CAUSES[a[1]]('scripted')
@@ -47,8 +53,12 @@ def make_class(base, nvars, check, endo, extra=()):
         def solve_t_before(self, t, *, errors='raise', catch_first_error=True, iteration=None, **kwargs):
             self.__dict__['_evlog'].append(['before', int(t), int(iteration)])
             sc = self.__dict__['_scripts'].get(str(self._pos(t)))
-            if sc:
-                run_actions(self, t, sc.get('before', []))
+            try:
+                if sc:
+                    run_actions(self, t, sc.get('before', []))
+            except Exception as e:
+                self.__dict__['_raised'].append(['before', int(t), 0, type(e).__name__])
+                raise
 
         def _evaluate(self, t, *, errors='raise', catch_first_error=True, iteration=None, **kwargs):
             self.__dict__['_evlog'].append(['pass', int(t), int(iteration)])
@@ -58,14 +68,21 @@ def make_class(base, nvars, check, endo, extra=()):
                     passes = sc.get('passes', [])
                     if 1 <= iteration <= len(passes):
                         run_actions(self, t, passes[iteration - 1])
+            except Exception as e:
+                self.__dict__['_raised'].append(['pass', int(t), int(iteration), type(e).__name__])
+                raise
             finally:
                 self.__dict__['_passvecs'].append([float(self.__dict__['_' + n][t]) for n in self.check])
 
         def solve_t_after(self, t, *, errors='raise', catch_first_error=True, iteration=None, **kwargs):
             self.__dict__['_evlog'].append(['after', int(t), int(iteration)])
             sc = self.__dict__['_scripts'].get(str(self._pos(t)))
-            if sc:
-                run_actions(self, t, sc.get('after', []))
+            try:
+                if sc:
+                    run_actions(self, t, sc.get('after', []))
+            except Exception as e:
+                self.__dict__['_raised'].append(['after', int(t), int(iteration), type(e).__name__])
+                raise
 
     return Scripted
 
@@ -79,4 +96,6 @@ def instantiate(cls, span, vals, status, iters, scripts):
     m.__dict__['_scripts'] = scripts
     m.__dict__['_evlog'] = []
     m.__dict__['_passvecs'] = []
+    m.__dict__['_raised'] = []
+    m.__dict__['_blocked'] = []
     return m
